@@ -58,3 +58,16 @@ NATIVE['n_c17_casm_paths'] = {
     'functions': [('crates/cairo-lang-sierra-ap-change/src/core_libfunc_ap_change.rs', None, 'core_libfunc_ap_change'),
                   ('crates/cairo-lang-sierra-to-casm/src/compiler.rs', None, 'compile')],
 }
+
+NATIVE['n_c17_env_twin'] = {
+    'crate': 'cairo-lang-sierra-to-casm',
+    'host': 'crates/cairo-lang-sierra-to-casm/src/environment/mod.rs',
+    'harness': 'native/cairo-lang-sierra-to-casm/n_c17_env_twin.rs',
+    'props': {'C17', 'C14'},
+    'bound': 'boundary enumeration of tracking / ap change / frame state / size',
+    'functions': [('crates/cairo-lang-sierra-to-casm/src/environment/ap_tracking.rs', None, 'update_ap_tracking'),
+                  ('crates/cairo-lang-sierra-to-casm/src/environment/frame_state.rs', None, 'handle_alloc_local'),
+                  ('crates/cairo-lang-sierra-to-casm/src/environment/frame_state.rs', None, 'handle_finalize_locals'),
+                  ('crates/cairo-lang-sierra-to-casm/src/environment/frame_state.rs', None, 'validate_final_frame_state')],
+}
+VERUS['env_ap_frame']['pair'] = 'n_c17_env_twin'
